@@ -479,6 +479,14 @@ CheckerSeeds == {
   FoldSeed(<<"99999999999999999999">>, "Rejected")
 }
 ValidSeeds == {
+  FoldSeed(<<"(", "(", "x", ":", "string", ")", "->", "any", "{", "{", "x", ":=", "5", "}", "return", "x", "+", "\"s\"", "}", ")">>, "Accepted"),
+  FoldSeed(<<"(", "(", "x", ":", "string", ",", "p", ":", "int", ")", "->", "any", "{", "if", "p", "==", "1", "{", "x", ":=", "5", "}", "return", "x", "+", "\"s\"", "}", ")">>, "Accepted"),
+  FoldSeed(<<"(", "(", "x", ":", "string", ",", "p", ":", "int", ")", "->", "any", "{", "if", "p", "==", "1", "{", "}", "else", "{", "x", ":=", "5", "}", "return", "x", "+", "\"s\"", "}", ")">>, "Accepted"),
+  FoldSeed(<<"(", "(", "x", ":", "[", "int", "]", ",", "p", ":", "int", ")", "->", "any", "{", "match", "p", "{", "1", "=>", "{", "x", ":=", "5", "}", ",", "=>", "{", "}", ",", "}", "return", "x", "[", "0", "]", "}", ")">>, "Accepted"),
+  FoldSeed(<<"(", "(", "x", ":", "string", ")", "->", "any", "{", "{", "(", "x", ",", "y", ")", ":=", "(", "5", ",", "1", ")", "}", "return", "x", "+", "\"s\"", "}", ")">>, "Accepted"),
+  FoldSeed(<<"(", "(", "x", ":", "string", ")", "->", "any", "{", "{", "x", ":=", "(", ")", "->", "int", "{", "return", "1", "}", "}", "return", "x", "+", "\"s\"", "}", ")">>, "Accepted"),
+  FoldSeed(<<"(", "(", "x", ":", "string", ")", "->", "any", "{", "{", "{", "x", ":=", "5", "}", "}", "return", "x", "+", "\"s\"", "}", ")">>, "Accepted"),
+  FoldSeed(<<"(", "(", "x", ":", "string", ",", "p", ":", "[", "int", "]", ")", "->", "any", "{", "for", "y", "in", "p", "~", "{", "x", ":=", "5", "}", "return", "x", "+", "\"s\"", "}", ")">>, "Accepted"),
   FoldSeed(<<"(", "(", "f", ":", "int", ")", "->", "any", "{", "f", ":=", "(", ")", "->", "int", "{", "return", "1", "}", ";", "y", ":=", "f", "(", ")", ";", "return", "y", "}", ")">>, "Accepted"),
   FoldSeed(<<"(", "(", "p", ":", "int", ")", "->", "any", "{", "f", ":=", "5", ";", "f", ":=", "(", ")", "->", "int", "{", "return", "1", "}", ";", "y", ":=", "f", "(", ")", ";", "return", "y", "}", ")">>, "Accepted"),
   FoldSeed(<<"(", "(", "p", ":", "int", ")", "->", "any", "{", "f", ":=", "5", ";", "f", ":=", "(", ")", "->", "(", "int", ",", "int", ")", "{", "return", "(", "1", ",", "1", ")", "}", ";", "(", "y", ",", "s", ")", ":=", "f", "(", ")", ";", "return", "y", "}", ")">>, "Accepted"),
